@@ -1,0 +1,52 @@
+//go:build verif
+
+// Contracts for package nbio, read by /verif/govc (comment-only; compiled by nobody).
+package nbio
+
+//@ uses mempool.unborn
+
+// ---- ghost state
+// kSent[fd]    bytes the kernel has accepted for descriptor fd (advanced only by the trusted syscall contracts)
+// Conn.gPend   bytes sitting in the write queue (buffer entries: unsent part; file entries: remain)
+// Conn.gAcc    bytes the public write calls have reported as accepted
+//@ ghost kSent : (Array Int Int)
+//@ ghost Conn.gPend : Int
+//@ ghost Conn.gAcc : Int
+
+// engine wiring, fixed when the connection is registered with its poller
+//@ pred Wired(c *Conn) := c.p != nil && c.p.g != nil && c.p.g.Config.BodyAllocator != nil
+
+// ---- the write queue
+//@ pred BufEntry(t *toWrite) := t.buf != nil && liveP[t.buf] && t.fd == 0 && 0 <= t.offset && t.offset < len(*t.buf)
+//@ pred FileEntry(t *toWrite) := t.buf == nil && t.fd > 0 && t.remain > 0
+//@ pred QueueInv(c *Conn) := (forall k int :: 0 <= k && k < len(c.writeList) ==> c.writeList[k] != nil && alloc(c.writeList[k]) && (BufEntry(c.writeList[k]) || FileEntry(c.writeList[k]))) && (forall j int, k int :: 0 <= j && j < k && k < len(c.writeList) ==> c.writeList[j] != c.writeList[k] && (c.writeList[j].buf == nil || c.writeList[j].buf != c.writeList[k].buf)) && (len(c.writeList) == 0 ==> c.left == 0) && c.left >= 0
+
+//@ fieldfunc nbio.Engine.onWrittenSize
+//@   note user callback invoked under the connection mutex: assumed not to touch the connection or its queue
+
+//@ func (*Conn).overflow
+//@   props C17
+//@   safety index slice nil div assert panic make
+//@   requires c.p != nil && c.p.g != nil
+//@   ensures def: result == (c.p.g.Config.MaxWriteBufferSize > 0 && c.left + n > c.p.g.Config.MaxWriteBufferSize)   // prop C17
+
+//@ func (*Conn).releaseToWrite
+//@   props C11 C01
+//@   safety index slice nil div assert panic make
+//@   requires Wired(c) && t != nil && (t.buf != nil ==> liveP[t.buf])
+//@   ensures freed: t.buf != nil ==> !liveP[t.buf]                                          // prop C11
+//@   ensures others: forall q int :: q != t.buf ==> liveP[q] == old(liveP[q])               // prop C11
+//@   assigns liveP
+
+//@ func (*Conn).newToWriteBuf
+//@   props C01 C17 C11
+//@   safety index slice nil div assert panic make
+//@   requires Wired(c) && QueueInv(c) && len(buf) > 0
+//@   ensures left: c.left == old(c.left) + len(buf)                                         // prop C17
+//@   ensures pend: c.gPend == old(c.gPend) + len(buf)                                       // prop C01
+//@   ensures inv: QueueInv(c)                                                               // prop C01 C11
+//@   ensures nonempty: len(c.writeList) > 0 && (len(c.writeList) == old(len(c.writeList)) || len(c.writeList) == old(len(c.writeList)) + 1)  // prop C01
+//@   ensures tail: len(*c.writeList[len(c.writeList)-1].buf) >= len(buf) && (forall p int :: off(*c.writeList[len(c.writeList)-1].buf) + len(*c.writeList[len(c.writeList)-1].buf) - len(buf) <= p && p < off(*c.writeList[len(c.writeList)-1].buf) + len(*c.writeList[len(c.writeList)-1].buf) ==> mem(*c.writeList[len(c.writeList)-1].buf, p) == memold(buf, p - (off(*c.writeList[len(c.writeList)-1].buf) + len(*c.writeList[len(c.writeList)-1].buf) - len(buf)) + off(buf)))  // prop C01
+//@   ensures prefix: forall k int :: 0 <= k && k < old(len(c.writeList)) - 1 ==> c.writeList[k] == old(c.writeList[k])   // prop C01
+//@   assigns c.left, c.gPend, c.writeList, liveP, toWrite.buf, toWrite.offset, toWrite.fd, toWrite.remain, comp("E.*nbio.toWrite"), comp("B.[]uint8"), comp("E.uint8"), allocates
+//@   at entry ghost { c.gPend = c.gPend + len(buf) }
